@@ -75,11 +75,12 @@ inductive Kind where
 
 /-- classes of Python values handed in as bounds -/
 inductive PyT where
-  | bool | int | float | strGood | strBad | date | datetime
+  | bool | int | float | decimal | strGood | strBad | date | datetime
   deriving DecidableEq, Repr
 
 /-- `isinstance(value, kind.__type__)`:
-Integral ⊇ {bool, int}; Real ⊇ Integral ∪ {float}; str; date ⊇ {date, datetime}; datetime -/
+Integral ⊇ {bool, int}; Real ⊇ Integral ∪ {float} (a `decimal.Decimal` is neither); str;
+date ⊇ {date, datetime}; datetime -/
 def isInstance : Kind → PyT → Bool
   | .integer, .bool | .integer, .int => true
   | .float, .bool | .float, .int | .float, .float => true
@@ -98,9 +99,9 @@ inductive CastOut where
 `int('x')`, `float(date)`, `int(date)` … raise; `str(v)` never does; `pandas.to_datetime` accepts
 numbers (epoch nanoseconds) and dates, rejects `bool` and unparseable strings -/
 def convertible : Kind → PyT → Bool
-  | .integer, .float | .integer, .strGood => true
+  | .integer, .float | .integer, .decimal | .integer, .strGood => true
   | .integer, _ => false
-  | .float, .strGood => true
+  | .float, .decimal | .float, .strGood => true
   | .float, _ => false
   | .string, _ => true
   | .date, .int | .date, .float | .date, .strGood => true
@@ -125,7 +126,8 @@ def castType (k : Kind) (t : PyT) : Option PyT :=
   | .err => none
 
 /-- a bound as given by the caller: the Python value class, the point of the ordinal axis that
-the value denotes (meaningful when the cast succeeds) and `bool(value)` -/
+the value denotes *once interpreted in the column's kind* (the result of `kind.cast`: `int(2.5)`,
+`to_datetime('2020-02-29T12:00').date()`, …; meaningful when the cast succeeds) and `bool(value)` -/
 structure Raw (α : Type) where
   ty : PyT
   pt : α
@@ -176,16 +178,22 @@ variable [LE α] [LT α] [DecidableLE α] [DecidableLT α] [DecidableEq α]
 
 abbrev Term (α : Type) := Cmp × α
 
-/-- `Ordinal.where(lower, upper)`: one term per bound that `is not None`, lower first, each bound
-cast to the column's kind; `[]` stands for the `None` result (no predicate) -/
-def whereTerms (sem : Once) (k : Kind) (lo hi : Option (Raw α)) : Except Err (List (Term α)) := do
+/-- `Ordinal.where(lower, upper)` with the interpretation of the lower and of the upper bound as
+parameters: one term per bound that `is not None`, lower first; `[]` stands for the `None` result
+(no predicate) -/
+def whereTermsWith (sem : Once) (castLo castHi : Raw α → Except Err α) (lo hi : Option (Raw α)) :
+    Except Err (List (Term α)) := do
   let l ← match lo with
     | none => pure []
-    | some r => do pure [((onceTable sem).1, ← cast k r)]
+    | some r => do pure [((onceTable sem).1, ← castLo r)]
   let u ← match hi with
     | none => pure []
-    | some r => do pure [((onceTable sem).2, ← cast k r)]
+    | some r => do pure [((onceTable sem).2, ← castHi r)]
   pure (l ++ u)
+
+/-- `Ordinal.where(lower, upper)`: both bounds go through the same `self.column.kind.cast` -/
+def whereTerms (sem : Once) (k : Kind) (lo hi : Option (Raw α)) : Except Err (List (Term α)) :=
+  whereTermsWith sem (cast k) (cast k) lo hi
 
 /-- the conjunction `functools.reduce(operator.and_, terms)` evaluated on one record -/
 def evalTerms : List (Term α) → α → Bool
